@@ -1,5 +1,6 @@
 import DilithiumVerif.Impl.Api
 import DilithiumVerif.Lemmas.Basic
+import DilithiumVerif.Lemmas.IterComplete
 /-
   C01 — Every signature the library produces verifies (all sets, all modes).
   Part 1 (loop logic): the signing loop can end only by returning the signature packed by an accepted
@@ -72,5 +73,31 @@ theorem sign_loop_none (p : Params) (mat : List PolyVec) (mu rp : List Nat) (s1h
 /-- an accepted iteration passed all four rejection tests, in the order of the code -/
 theorem iteration_accept_only_after_checks (r : IterResult) (s : List Nat) (h : accepted r = some s) : r = .accept s := by
   cases r <;> simp [accepted] at h; subst h; rfl
+
+/-! ## Part 2 (completeness of one iteration — the algebra of the scheme, on the model of the code)
+
+  `Complete.KeyFacts p mat s1 s2 t1 t0` is what key generation establishes (theorem `C04.keygen_relation`): a well-formed
+  matrix, short s1, s2, t1 and t0 in range, and t1·2^13 + t0 = A·s1 + s2 in ℤ_q[X]/(X^256+1) (read at the 256 NTT points).
+  The theorem below follows every arithmetic step of `sign_iteration` and of `verify_tail` on the checked-semantics
+  model — transforms, Montgomery products, lazy reductions, Decompose, MakeHint/UseHint — with the range analysis that
+  shows no step overflows, through the NTT theorems of C13 and the rounding theorems of C15/C18. -/
+
+open DV.Complete in
+/-- **An accepted iteration verifies.** For each of the six parameter sets, any key satisfying the key-generation facts,
+    any μ, ρ′ and nonce: if `sign_iteration` accepts and emits `sig`, then `sig` is the packing of some (c̃, z, h) with
+    c̃ = H(μ ‖ w1Encode(w1)), ‖z‖∞ < γ1 − β, and the verifier's reconstruction (`verify_tail`: A·z − c·t1·2^13, UseHint,
+    w1Encode) on (c̃, z, h) and the public t1 succeeds — no overflow, no out-of-range access — and returns exactly
+    w1Encode(w1): the bytes whose hash with μ is c̃. -/
+theorem accepted_iteration_verifies (p : Params) (hp : p ∈ allParams) (mat : List PolyVec) (s1 s2 t1 t0 s1h s2h t0h : PolyVec)
+    (kf : KeyFacts p mat s1 s2 t1 t0)
+    (e1 : vec_ntt s1 = .ok s1h) (e2 : vec_ntt s2 = .ok s2h) (e0 : vec_ntt t0 = .ok t0h)
+    (mu rp : List Nat) (nonce : Int) (sig : List Nat)
+    (hacc : sign_iteration p mat mu rp s1h s2h t0h nonce = .ok (.accept sig)) :
+    ∃ ct z h w1, compute_ctilde p mu (k_pack_w1 p.lvl w1) = .ok ct ∧
+      pack_sig p (ct ++ List.replicate (p.sigBytes - p.ctilde) 0) none z h = .ok sig ∧
+      z.length = p.l ∧ (∀ a ∈ z, a.length = 256 ∧ ∀ x ∈ a, -((p.gamma1 : Int) - p.beta) < x ∧ x < (p.gamma1 : Int) - p.beta) ∧
+      ∀ pk rho trh, shake256 CRHBYTES p.trBytes pk p.pkBytes = .ok trh → matrix_expand p FUEL rho = .ok mat →
+        verify_tail p pk rho t1 ct z h = .ok (trh, k_pack_w1 p.lvl w1) :=
+  iteration_complete p hp mat s1 s2 t1 t0 s1h s2h t0h kf e1 e2 e0 mu rp nonce sig hacc
 
 end DV.C01
